@@ -413,7 +413,7 @@ def rules(ctx: Ctx) -> None:
             if not (isinstance(k, ast.Call) and isinstance(k.func, ast.Attribute) and k.func.attr in GRAPH_REMOVERS):
                 continue
             recv_t = prog.infer(k.func.value, fold)
-            if not (u(k.func.value) in ("g",) or "DiGraph" in repr(recv_t) or "Graph" in repr(recv_t)):
+            if not ("DiGraph" in repr(recv_t) or "Graph" in repr(recv_t)):
                 # not a graph (e.g. list.clear) - only graph typed or the accumulated graph variable
                 if not _is_graph_var(prog, fold, k.func.value):
                     continue
@@ -429,7 +429,9 @@ def rules(ctx: Ctx) -> None:
                 branch = "drop" if any(t == f"{hname}.drop" and p for t, p in facts) else "rename" if any(t == f"{hname}.rename" and p for t, p in facts) else "other"
                 if meth == "remove_node":
                     x = u(k.args[0]) if k.args else "?"
-                    deg0 = any(p and t in (f"g.degree[{x}] == 0", f"g.degree({x}) == 0", f"not g.degree[{x}]") or (not p) and t in (f"g.degree[{x}]", f"g.degree[{x}] > 0") for t, p in facts)
+                    import re as _re
+                    dpat = r"\w+\.degree[\[(]" + _re.escape(x) + r"[\])]"
+                    deg0 = any(p and (_re.fullmatch(dpat + " == 0", t) or _re.fullmatch("not " + dpat, t)) or (not p) and (_re.fullmatch(dpat, t) or _re.fullmatch(dpat + " > 0", t)) for t, p in facts)
                     is_loopvar = _is_loop_target_of(cfg, c.id, x, (f"{hname}.drop", f"{hname}.rename"))
                     ctx.ob("R03.3", f"fold:remove_node:{branch}", deg0 and is_loopvar and branch in ("drop", "rename"), where,
                            f"`{u(k)}` must target the dropped / renamed table and be dominated by a proof that its degree is 0")
